@@ -31,7 +31,9 @@ type pager struct {
 	hexK map[string]bool // listings whose raw keys are binary: transported in hex
 }
 
-func newPager(r *rand.Rand) *pager { return &pager{r: r, next: map[string][]byte{}, hexK: map[string]bool{}} }
+func newPager(r *rand.Rand) *pager {
+	return &pager{r: r, next: map[string][]byte{}, hexK: map[string]bool{}}
+}
 
 func (p *pager) keyJ(kind string, k []byte) interface{} {
 	if len(k) == 0 {
